@@ -81,6 +81,21 @@ Definition check_c09 (c : c09case) : Z :=
       | Er e, DErr e' => corr (err_eqb e e')
       | _, _ => 1
       end
+      (* the property on the implementation's own answer, judged by the protocol table with the
+         protocol's own VarInt bounds: what the table decodes must be decoded to the same values,
+         what it rejects (ordinals outside an enum, truncated fields, bad UTF-8, negative lengths)
+         must be rejected *)
+      + (match spec_kinds p with
+         | None => 0
+         | Some ks =>
+             match dec 5 10 ks b, r with
+             | Er EUnmodelled, _ | _, DErr EUnmodelled => 0
+             | Ok vs rest, DOk vs' n => moni (fvs_eqb vs vs' && (Z.of_nat (length rest) =? n))
+             | Er _, DErr _ => 0
+             | Ok _ _, DErr EArray => 0      (* the crate's fixed-size arrays (verify token, shared secret) are narrower than the table's byte arrays *)
+             | _, _ => 2
+             end
+         end)
   | VI v b back rest =>
       corr (beq (write_varint v) b
             && match read_varint_n varint_read_iters b, back with
